@@ -113,6 +113,20 @@ static const std::vector<std::vector<int>>& stagings() {
 int nbStagings() { return int(stagings().size()); }
 
 static void applyStaging(Scenario& sc, int k) {
+    if (sc.topLevels >= -1) {
+        // periodic run with the top-tree executor itself staged: its M2M / M2L / L2L flags split over 1..3 calls
+        static const int comps[4][3] = {{F_M2M | F_M2L | F_L2L, 0, 0}, {F_M2M, F_M2L | F_L2L, 0}, {F_M2M | F_M2L, F_L2L, 0}, {F_M2M, F_M2L, F_L2L}};
+        HistOp a, b, c;
+        a.op = b.op = c.op = "execute";
+        a.flags = F_P2M | F_M2M; b.flags = F_M2L | F_P2P; c.flags = F_L2L | F_L2P;
+        sc.history.clear();
+        sc.history.push_back(a);
+        for (int i = 0; i < 3; ++i) if (comps[k % 4][i]) { HistOp t; t.op = "top"; t.flags = comps[k % 4][i]; sc.history.push_back(t); }
+        sc.history.push_back(b);
+        sc.history.push_back(c);
+        sc.variant = "topstaged";
+        return;
+    }
     const auto& t = stagings();
     const std::vector<int>& st = t[size_t(k) % t.size()];
     sc.history.clear();
@@ -298,6 +312,11 @@ Scenario generate(const std::string& prop, uint64_t seed, const std::string& tie
     sc.oneGroupPerParent = r.chance(0.35);
     sc.upper = r.chance(0.7) ? (sc.isPeriodic() ? 1 : 2) : long(r.below(uint64_t(sc.height + 1)));
     if (prop == "C12") sc.upper = long(r.below(uint64_t(sc.height + 1)));
+    if (prop == "C12" && sc.isPeriodic() && sc.height >= 2 && r.chance(0.4)
+        && (sc.executor == "seq" || sc.executor == "omp" || sc.executor == "seqtsm" || sc.executor == "omptsm")) {
+        sc.topLevels = int(r.below(5)) - 1;   // the periodic four-call sequence with the top-tree executor staged (applyStaging)
+        sc.upper = 1; sc.upperDefault = false;
+    }
     if (numeric) sc.upper = sc.isPeriodic() ? 1 : 2;   // the shipped floating-point kernels hold operators for the documented working levels only
     if (sc.upper == 2 && r.chance(0.5)) sc.upperDefault = true;   // TbfDefaultLastLevel through the constructors' default argument
     sc.threadsCtor = 1 + int(r.below(16));
